@@ -15,6 +15,9 @@ pub mod c14;
 pub mod c15;
 pub mod c16;
 pub mod c17;
+pub mod c18;
+pub mod c19;
+pub mod c20;
 pub mod stream;
 
 use crate::evidence::{Report, Tier};
@@ -41,6 +44,9 @@ pub fn lookup(id: &str) -> Option<(CheckFn, ReplayFn)> {
         "C15" => Some((c15::run, c15::replay)),
         "C16" => Some((c16::run, c16::replay)),
         "C17" => Some((c17::run, c17::replay)),
+        "C18" => Some((c18::run, c18::replay)),
+        "C19" => Some((c19::run, c19::replay)),
+        "C20" => Some((c20::run, c20::replay)),
         _ => None,
     }
 }
